@@ -60,6 +60,7 @@ MONITORS (real behaviour alone):
   c02:e2e-response-not-wellformed    a response is not one well-formed TTLV item (independent walker)
   c16:e2e-version-not-echoed         the response header does not carry the request's protocol version
   c08:e2e-results-incomplete         an engine answer with fewer / more items than the continuation option implies
+  c08:e2e-too-large-without-limit    executed items answered only "Response Too Large" though the request states no limit
   c17:e2e-unauthenticated-reached-engine  the engine was called for a client whose identity cannot be established
   c11:e2e-connection-depends-on-predecessor   (sampled) the same connection served by a RESTARTED server on the store
                                      its predecessors left answers other bytes / leaves another store
@@ -678,6 +679,23 @@ def monitor_conn(step, o):
                           % (i, verdict, ver)))
         if it["calls"] and who is None:
             fails.append(("c17:e2e-unauthenticated-reached-engine", "frame %d: engine called for a client without identity" % i))
+        if it["calls"] and it["calls"][0]["out"] and it["calls"][0]["out"]["k"] == "ok" and statuses == [1] \
+                and raw.find(b"\x42\x00\x5c\x05") < 0:
+            # the engine's answer was REPLACED by the one-item "Response Too Large" refusal: only THIS request's own
+            # Maximum Response Size can ask for that (the stores of these histories are far too small for the server's
+            # own megabyte to matter) - a limit an earlier request of the connection stated does not outlive it
+            try:
+                rtop = S.ttlv_walk(fr)
+                rhdr = [x for x in rtop[0][2] if x[0] == 0x420077][0]
+                own_limit = any(x[0] == 0x420050 for x in rhdr[2])
+                item = [x for x in S.ttlv_walk(raw)[0][2] if x[0] == 0x42000F][0]
+                rsn = [x for x in item[2] if x[0] == 0x42007E]
+                too_large = bool(rsn) and int.from_bytes(rsn[0][2], "big") == 2
+            except Exception:
+                own_limit, too_large = True, False
+            if too_large and not own_limit:
+                fails.append(("c08:e2e-too-large-without-limit", "frame %d: the request states no Maximum Response Size, the engine "
+                              "executed its %d item(s), the client is told only 'Response Too Large'" % (i, it["calls"][0]["n_items"])))
         if it["calls"] and it["calls"][0]["out"] and it["calls"][0]["out"]["k"] == "ok" and len(statuses) >= 1:
             c = it["calls"][0]
             engine_answer = not (len(statuses) == 1 and statuses[0] == 1 and raw.find(b"\x42\x00\x5c\x05") < 0)
